@@ -484,7 +484,7 @@ func pedersenCase[E algebra.PrimeGroupElement[E, S], S algebra.PrimeFieldElement
 					if out == "KEYERR" {
 						want = "keyerr"
 					}
-					if want != p.impl {
+					if r.openAlarm(v.name == "honest", p.impl, want) {
 						r.corr(p.vid, "pedersen-open-"+tamperClass(v.name), fmt.Sprintf("implementation Open=%s, model ped_open=%s", p.impl, out), p.tcse,
 							"correspondence pedersen Open [model/Commit.v ped_open]", (v.name == "honest" && p.impl != "1") || (v.mustReject && p.impl == "1"))
 					}
